@@ -113,14 +113,51 @@ Fixpoint trace_from (s : state) (ops : list op) : trace :=
   end.
 Definition trace_of (ops : list op) : trace := trace_from init ops.
 
+(* ---- isolation as a predicate over TWO runs of the implementation ------------
+   "Failures of one address or kind never throttle another": what the attempts
+   on one (address,kind) are answered (refused / allowed, the delay, and the
+   number of records kept for it) in a history equals what they are answered in
+   the history restricted to that (address,kind) (clean-ups stay: they are the
+   clock of the housekeeping, not attempts).  The harness executes the
+   restricted history on a fresh throttler and hands over its answers; the
+   restriction itself is recomputed here ([outs_for] selects the answers of the
+   ops that touch the key), so an answer of a foreign op can never be compared. *)
+Definition touches (k : key) (o : op) : bool :=
+  match op_key o with Some k' => key_eqb k k' | None => true end.
+
+Fixpoint outs_for (k : key) (tr : trace) : list out :=
+  match tr with
+  | [] => []
+  | (o, v) :: r => if touches k o then v :: outs_for k r else outs_for k r
+  end.
+
+Fixpoint outs_eqb (a b : list out) : bool :=
+  match a, b with
+  | [], [] => true
+  | x :: a', y :: b' => out_eqb x y && outs_eqb a' b'
+  | _, _ => false
+  end.
+
+(* answers of the restricted run, per key *)
+Definition projections := list (key * list out).
+
+Definition iso_ok (k : key) (tr : trace) (alone : list out) : bool := outs_eqb (outs_for k tr) alone.
+Definition P_C17_iso (tr : trace) (ps : projections) : bool :=
+  forallb (fun e => iso_ok (fst e) tr (snd e)) ps.
+
 (* ---- judging one case of the correspondence run ---------------------------
    A case is the op list the implementation executed together with what it
    answered.  Verdict codes: 1 = model and implementation differ at that step,
-   2 = the implementation's own trace violates P_C17. *)
+   2 = the implementation's own trace violates P_C17,
+   5 = the implementation's answers to one (address,kind) depend on the ops of
+       another one (P_C17_iso false; the step index is the position of the key
+       in the case's projection list). *)
 (* id, mode (0: compare with the model only; 1: sequential history, full
-   predicate; 2: ordered time stamps, window predicate), trace *)
-Definition case := (N * N * list (op * out))%type.
-Definition mkcase (id mode : N) (tr : trace) : case := (id, mode, tr).
+   predicate; 2: ordered time stamps, window predicate), trace, answers of the
+   restricted runs *)
+Definition case := (N * N * list (op * out) * projections)%type.
+Definition mkcase_iso (id mode : N) (tr : trace) (ps : projections) : case := (id, mode, tr, ps).
+Definition mkcase (id mode : N) (tr : trace) : case := mkcase_iso id mode tr [].
 
 Fixpoint first_diff (i : N) (s : state) (tr : trace) : option N :=
   match tr with
@@ -129,10 +166,17 @@ Fixpoint first_diff (i : N) (s : state) (tr : trace) : option N :=
                    if out_eqb v v' then first_diff (N.succ i) s' r else Some i
   end.
 
+Fixpoint first_iso_fail (i : N) (tr : trace) (ps : projections) : option N :=
+  match ps with
+  | [] => None
+  | (k, alone) :: r => if iso_ok k tr alone then first_iso_fail (N.succ i) tr r else Some i
+  end.
+
 Definition judge (c : case) : list (N * N * N) :=
-  let '(id, mode, tr) := c in
+  let '(id, mode, tr, ps) := c in
   (match first_diff 0 init tr with Some i => [(id, 1%N, i)] | None => [] end) ++
-  (if (match mode with 1%N => P_C17 tr | 2%N => P_C17_window tr | _ => true end) then [] else [(id, 2%N, 0%N)]).
+  (if (match mode with 1%N => P_C17 tr | 2%N => P_C17_window tr | _ => true end) then [] else [(id, 2%N, 0%N)]) ++
+  (match first_iso_fail 0 tr ps with Some i => [(id, 5%N, i)] | None => [] end).
 
 Definition judge_all (cs : list case) : list (N * N * N) := flat_map judge cs.
 
